@@ -127,6 +127,8 @@ extern int __real_sched_getcpu(void);
 extern int __real_sched_setaffinity(pid_t, size_t, const cpu_set_t *);
 extern int __real_open(const char *, int, ...);
 extern void *__real_mremap(void *, size_t, size_t, int, ...);
+extern void *__real_mmap(void *, size_t, int, int, int, off_t);
+extern int __real_munmap(void *, size_t);
 extern int __real_usleep(useconds_t);
 extern unsigned int __real_sleep(unsigned int);
 extern int __real_sched_yield(void);
@@ -825,10 +827,46 @@ int __wrap_open(const char *path, int fl, ...)
 	}
 	return __real_open(path, fl, mode);
 }
+/* In-place growth mode (cfg inplace 1): every anonymous mapping the library creates gets a reserved, inaccessible tail of IPM_TAIL bytes, and a
+ * non-moving mremap() that grows the mapping succeeds in place over that tail (fresh zero pages, as the kernel provides) - the layout in which the
+ * address range after a mapping happens to be free.  Without the mode the kernel decides (growth inside the last page succeeds, growth across a
+ * page boundary normally fails because the next range is taken).  An access past the grown mapping faults on the reserved tail. */
+#define IPM_TAIL (16 * 4096ul)
+static struct { char *base; size_t len, resv; } ipm[16];
+static int nipm, inplace_mode;
+void *__wrap_mmap(void *addr, size_t len, int prot, int fl, int fd, off_t off)
+{
+	if (!active || !self || in_rt || !inplace_mode || addr || !(fl & MAP_ANONYMOUS) || (fl & MAP_FIXED) || nipm >= 16 || !len)
+		return __real_mmap(addr, len, prot, fl, fd, off);
+	size_t pl = (len + 4095) & ~4095ul, resv = pl + IPM_TAIL;
+	char *b = __real_mmap(NULL, resv, PROT_NONE, MAP_PRIVATE | MAP_ANONYMOUS | MAP_NORESERVE, -1, 0);
+	if (b == MAP_FAILED) return b;
+	if (__real_mmap(b, pl, prot, fl | MAP_FIXED, fd, off) == MAP_FAILED) { __real_munmap(b, resv); errno = ENOMEM; return MAP_FAILED; }
+	ipm[nipm].base = b; ipm[nipm].len = pl; ipm[nipm].resv = resv; nipm++;
+	return b;
+}
+int __wrap_munmap(void *addr, size_t len)
+{
+	for (int i = 0; i < nipm; i++)
+		if (ipm[i].base == (char *)addr) { size_t r = ipm[i].resv; ipm[i] = ipm[--nipm]; return __real_munmap(addr, r); }
+	return __real_munmap(addr, len);
+}
 void *__wrap_mremap(void *old, size_t osz, size_t nsz, int fl, ...)
 {
 	long k = nth_call[FC_MREMAP]++;
 	if (active && self && !in_rt && !(fl & MREMAP_MAYMOVE) && fault_hit("mremap_fail", k)) { errno = ENOMEM; return MAP_FAILED; }
+	if (!(fl & MREMAP_MAYMOVE))
+		for (int i = 0; i < nipm; i++)
+			if (ipm[i].base == (char *)old) {
+				size_t npl = (nsz + 4095) & ~4095ul;
+				if (npl > ipm[i].resv) { errno = ENOMEM; return MAP_FAILED; }
+				if (npl > ipm[i].len) {
+					if (__real_mmap(ipm[i].base + ipm[i].len, npl - ipm[i].len, PROT_READ | PROT_WRITE, MAP_PRIVATE | MAP_ANONYMOUS | MAP_FIXED, -1, 0) == MAP_FAILED) { errno = ENOMEM; return MAP_FAILED; }
+					ipm[i].len = npl;
+					flags |= 1ull << DSF_INPLACE_GROWTH;
+				}
+				return old;
+			}
 	return __real_mremap(old, osz, nsz, fl);
 }
 
@@ -1029,6 +1067,7 @@ static void run_case(char *text, int tr)
 	parse_case(text);
 	ds_membarrier_available = (int)ds_cfg("membarrier", 1);
 	ncpus = (int)ds_cfg("ncpus", 2);
+	inplace_mode = (int)ds_cfg("inplace", 0);
 	ds_scenario_fn fn = NULL;
 	for (int i = 0; i < nscen; i++) if (!strcmp(scen_names[i], scen_name)) fn = scen_fns[i];
 	if (!fn) die("badcase", "unknown scenario '%s'", scen_name);
@@ -1136,6 +1175,14 @@ static int serve_one(char *text, int tr, int wall_ms)
 	return strcmp(status, "ok") != 0;
 }
 
+/* "cfg early 1" (driver: environment DSCHED_EARLY): the whole engine runs from a constructor that precedes the library's own constructors, so every
+ * case meets a library that has not initialised itself yet (first use from another object's constructor; urcu-bp and urcu-memb document and handle it) */
+int main(int argc, char **argv);
+static int early_done;
+static void __attribute__((constructor(102))) ds_early_main(int argc, char **argv)
+{
+	if (getenv("DSCHED_EARLY") && !early_done) { early_done = 1; exit(main(argc, argv)); }
+}
 int main(int argc, char **argv)
 {
 	int tr = 0, server = 0, wall_ms = 10000; const char *file = NULL;
